@@ -58,6 +58,11 @@ func ZZ_C18_Snapshots() {
 					// the same member (same ID, same kinds) listed under another address: the view is by member ID
 					m = &Member{ID: m.ID, Host: "elsewhere:" + string(rune('0'+i)), Kinds: m.Kinds, Region: m.Region}
 					zzrt.Reach("member-listed-under-another-host")
+				} else if i > 1 && zzrt.Param("MOVE") == 1 && zzrt.NondetBool("listedUnderTheHostOfAnotherMember") {
+					// two members with different IDs on one address (a node restarted on the same listen address
+					// under a new ID while its old incarnation is still listed): the view is by member ID
+					m = &Member{ID: m.ID, Host: uni[i-1].Host, Kinds: m.Kinds, Region: m.Region}
+					zzrt.Reach("two-members-on-one-host")
 				}
 				snap = append(snap, m)
 			}
